@@ -425,7 +425,7 @@ func ruleR03R04(c *Ctx) {
 					}
 					if call, ok := x.(*ast.CallExpr); ok && found == nil {
 						if f := c.m.staticCallee(call); f != nil {
-							if tu := c.m.ByObj[f]; tu != nil && tu != u && tu.Recv == tk.Name && tu.Lit == nil {
+							if tu := c.m.ByObj[f]; tu != nil && tu != u && tu.Lit == nil && (tu.Recv == tk.Name || (tu.Recv == "" && c.takesSlot(tu))) {
 								found, cu = call, tu
 							}
 						}
@@ -824,4 +824,23 @@ func (c *Ctx) onlyReachedFrom(u *FuncUnit, want, other string) bool {
 		return false
 	}
 	return ou == nil || !c.reachableFrom([]*FuncUnit{ou})[u]
+}
+
+
+// takesSlot: a package-level function with a *nodeRef parameter – a part of the insertion
+// algorithm moved out of the method (splitLeaf(ref, …)).
+func (c *Ctx) takesSlot(u *FuncUnit) bool {
+	if u == nil || u.Obj == nil {
+		return false
+	}
+	sig, _ := u.Obj.Type().(*types.Signature)
+	if sig == nil {
+		return false
+	}
+	for i := 0; i < sig.Params().Len(); i++ {
+		if _, isPtr := sig.Params().At(i).Type().(*types.Pointer); isPtr && c.isNodeRefType(sig.Params().At(i).Type()) {
+			return true
+		}
+	}
+	return false
 }
